@@ -60,7 +60,7 @@ pub fn replay_csv(path: &str) {
         let schema = Arc::new(Schema::new((0..ncols).map(|i| Field::new(format!("c{i}"), DataType::Utf8, true)).collect::<Vec<_>>()));
         let cfg = CsvCfg { schema, header: false, escape: None, terminator: None, comment: None, truncated: false, bounds: None };
         let n = bytes.len();
-        let inp = Inp { fmt: "csv", name: String::new(), bytes, n, marks: vec![], bodies: vec![], cfg: Cfg::Ipc(None), uses_bs: true, allow_empty: false, pinned: "", modes: vec![] };
+        let inp = Inp { fmt: "csv", name: String::new(), bytes, n, marks: vec![], bodies: vec![], must: vec![], batch_sizes: None, lean: false, cfg: Cfg::Ipc(None), uses_bs: true, allow_empty: false, pinned: "", modes: vec![] };
         replayed += 1;
         // all 2^(n-1) chunkings
         let k = n.saturating_sub(1);
